@@ -3940,7 +3940,7 @@ CComplex FPProc::BlockIntegral(const int inttype)
                     break;
 
                 case 4: // Resistive Losses
-                    sig=1.e06/Re(1./blocklist[meshelem[i].lbl].o);
+                    sig=(blockproplist[meshelem[i].blk].Cduct!=0) ? 1.e06/Re(1./blocklist[meshelem[i].lbl].o) : 0; // 1./0 is NaN
                     if((blockproplist[meshelem[i].blk].Lam_d!=0) &&
                             (blockproplist[meshelem[i].blk].LamType==0)) sig=0;
                     if(sig!=0)
